@@ -8,7 +8,7 @@ import glob
 import os
 import re
 
-from . import core
+from . import core, sanit
 from .core import Case
 
 CHARS = ["'", '"', "b", "0", "x", "o", "1", "e", ".", "=", ":", ";", ",", "(", ")", "{", "}", "[", "]",
@@ -265,6 +265,14 @@ def run(chk):
     texts.extend(chains())
     cases = [Case("t%d" % i, t, {"stage": "compile"}) for i, (_, t) in enumerate(texts)]
     res = core.run_cases(cases, shards=shards, timeout=(60 if quick else 600), max_hangs=1)
+    # sanitizer sweeps over the same corpus (DESIGN section 8): thorough tier, or as soon as `unsafe` appears in the tree
+    unsafe_hits = sanit.want_quick()
+    if unsafe_hits:
+        chk.count("unsafe code present: %s" % ", ".join(unsafe_hits[:5]))
+    if not quick or unsafe_hits:
+        sanit.asan_sweep(chk, cases, "c01", limit=(150000 if not quick else 30000))
+    if not quick:
+        sanit.miri_sweep(chk, [c for c in cases if len(c.src) < 120], "c01", limit=48)
     for i, (cls, t) in enumerate(texts):
         r = res.get("t%d" % i)
         if r is None:
